@@ -48,6 +48,12 @@ def plan(tier, seed):
                                      (60, -10, 'int', 60, -50, 'int'), (7, -3, 'unsigned char', 7, 2, 'signed char')]:
         regs.append('c05::Esi<cnl::elastic_scaled_integer<%d, cnl::power<%d>, %s>, cnl::elastic_scaled_integer<%d, cnl::power<%d>, %s>>::reg("%d_%s:%d|%d_%s:%d")'
                     % (d1, e1, n1, d2, e2, n2, d1, short(n1), e1, d2, short(n2), e2))
+    # elastic_integer with a built-in operand on either side
+    for d, n in [(5, 'unsigned'), (5, 'int'), (20, 'unsigned'), (31, 'int'), (32, 'unsigned'), (40, 'int'), (8, 'unsigned char'), (7, 'signed char'), (63, 'int'), (64, 'unsigned')]:
+        for b in ('int', 'unsigned', 'signed char', 'long', 'unsigned short'):
+            if quick and (d + len(b)) % 2:
+                continue
+            regs.append('c05::WithBuiltin<%s, %s>::reg("%d_%s|%s")' % (el(d, n), b, d, short(n), short(b)))
     for d in (1, 7, 8, 16, 31, 32, 40, 63, 100):
         for n in ('int', 'unsigned'):
             for sh in (1, 3, 8, 20):
@@ -59,4 +65,18 @@ def plan(tier, seed):
              for i, part in enumerate(split(regs, 16))]
     cl = [r for r in regs if 'Bin<' in r][:24]
     units.append(Unit('C05-clang', 'clang', 'props/C05.h', cl, rc_cases=cases, enum_max=2 ** 22, chunk=8))
+    # every digit count against a fixed partner (results cross every storage-word boundary one digit at a time)
+    W31 = 'cnl::wide_integer<31>'
+    sweeps = [
+        ('Sw_i_i31', 'c05::Bin<cnl::elastic_integer<E, int>, %s, true>' % el(31, 'int'), 'bin|sweep|E_int|31_int', 1, 96),
+        ('Sw_u_i8', 'c05::Bin<cnl::elastic_integer<E, unsigned>, %s, true>' % el(8, 'int'), 'bin|sweep|E_unsigned|8_int', 1, 118),
+        ('Sw_i64_i', 'c05::Bin<%s, cnl::elastic_integer<E, int>, false>' % el(64, 'int'), 'bin|sweep|64_int|E_int', 1, 126),
+        ('Sw_sc_u', 'c05::Bin<cnl::elastic_integer<E, signed char>, cnl::elastic_integer<E, unsigned char>, true>', 'bin|sweep|E_signed_char|E_unsigned_char', 1, 63),
+        # elastic_scaled_integer at every exponent distance (alignment for + - comparisons, down-scaling for += -=)
+        ('Sw_esi_i', 'c05::Esi<cnl::elastic_scaled_integer<20, cnl::power<0>, int>, cnl::elastic_scaled_integer<40, cnl::power<E>, int>>', 'esi|sweep|20_int:0|40_int:E', -70, 20),
+        ('Sw_esi_u', 'c05::Esi<cnl::elastic_scaled_integer<24, cnl::power<0>, unsigned>, cnl::elastic_scaled_integer<30, cnl::power<E>, unsigned>>', 'esi|sweep|24_unsigned:0|30_unsigned:E', -70, 20),
+        ('Sw_esi_c', 'c05::Esi<cnl::elastic_scaled_integer<12, cnl::power<E>, signed char>, cnl::elastic_scaled_integer<50, cnl::power<0>, signed char>>', 'esi|sweep|12_signed_char:E|50_signed_char:0', -20, 66),
+        ('Sw_w_w64', 'c05::Bin<cnl::elastic_integer<E, %s>, %s, true>' % (W31, el(64, W31)), 'bin|sweep|E_wide31|64_wide31', 60, 200),
+    ]
+    units += sweep_units('C05', 'props/C05.h', sweeps, cases * 2, nunits=12, keep=(lambda i, r: i % 2 == 0) if quick else None)
     return dict(units=units, rule=RULE, assumptions=['values enter elastic types through from_rep on a representation built outside CNL'])
